@@ -75,6 +75,9 @@ def generate(rng, tier="quick"):
                 op["gc_at"] = rng.choice([3, 10, 25, 60, 120, 250, 500])
             if kind in ("take_close", "take_drop", "take_cycle", "consumer_raises"):
                 op["k"] = rng.choice([0, 1, 1, 1, 2, 2, 3, 5])
+            if kind in ("take_close", "take_drop") and rng.random() < 0.15:
+                # the iterator is handed to another thread (sequentially): started there, or finished there
+                op["elsewhere"] = rng.choice(["start", "finish"])
         elif kind == "resolve":
             op["ref"] = rng.choice(refs)
         elif kind == "resolving":
@@ -233,6 +236,10 @@ def shrink(scn):
         if op.get("gc_at"):
             c = copy.deepcopy(scn)
             del c["ops"][i]["gc_at"]
+            yield c
+        if op.get("elsewhere"):
+            c = copy.deepcopy(scn)
+            del c["ops"][i]["elsewhere"]
             yield c
         if op.get("k", 0) > 0:
             c = copy.deepcopy(scn)
